@@ -1,0 +1,8 @@
+//go:build !verif
+
+package transmit
+
+// verifEmit is a no-op unless Refinery is built with the "verif" build tag; see
+// verif_on.go. It exists so that external conformance checkers can observe the
+// transmission's linearization points without changing its behaviour.
+func verifEmit(d *DirectTransmission, event string, kv ...any) {}
